@@ -74,7 +74,12 @@ func toCodeSignature(t *types.Signature) *jen.Statement {
 	jenParams := []jen.Code{}
 	params := t.Params()
 	for i := 0; i < params.Len(); i++ {
-		jenParams = append(jenParams, toCode(params.At(i).Type()))
+		param := params.At(i).Type()
+		if slice, ok := param.(*types.Slice); ok && t.Variadic() && i == params.Len()-1 {
+			jenParams = append(jenParams, jen.Op("...").Add(toCode(slice.Elem())))
+			continue
+		}
+		jenParams = append(jenParams, toCode(param))
 	}
 
 	jenResults := []jen.Code{}
